@@ -604,6 +604,16 @@ pub struct KReadC;
 pub struct KWriteC;
 pub struct KReadAWriteC;
 pub struct KOptReadA;
+pub struct KDerOptReadAWriteC;
+/// derived bundle used as a controller's declared data
+#[derive(shred::SystemData)]
+pub struct CtrlDer<'a> {
+    pub a: Option<Read<'a, Cell0>>,
+    pub c: Write<'a, Cell1>,
+}
+impl CtrlKind for KDerOptReadAWriteC {
+    type Data<'c> = CtrlDer<'c>;
+}
 impl CtrlKind for KOptReadA {
     type Data<'c> = Option<Read<'c, Cell0>>;
 }
